@@ -195,6 +195,7 @@ func runC11(c *core.Ctx) error {
 	checkNilContradictions(c, prog, table)
 	checkNilBeliefsAcrossCalls(c, prog, table)
 	checkNilableFieldDerefs(c, prog, table)
+	checkTypeGraphWalksLinear(c, prog)
 	r9 := c.NewRule("R11.9", "S1", "a local index is consulted with keys built the way it was filled (duplicates the parser promises to remove do not reach the generator's unreachable arms)", 5)
 	checkInsertLookupKeyAgreement(c, r9, prog, pkgParser, pkgJS, pkgGen, pkgIR)
 	return nil
